@@ -316,11 +316,14 @@ Definition oracle_end_lines (o : ostate) (s : sstate) (h : Z) : list (Z * bytes 
 Inductive oenv :=
 | EnvJail (v : Z)
 | EnvUnjail (v : Z)
-| EnvPoolFund (denom : bytes) (amount : Z).   (* coins sent to the oracle module account: they join the reward pool *)
+| EnvPoolFund (denom : bytes) (amount : Z)    (* coins sent to the oracle module account: they join the reward pool *)
+| EnvSetTokens (v : Z) (tokens : Z).          (* x/staking: (un)delegation changes the validator's tokens; with no tokens it
+                                                 leaves the bonded set at the next staking end-block and is later removed *)
 
 Definition apply_oenv (o : ostate) (e : oenv) : ostate :=
   match e with
   | EnvJail a => set_vals o (map (fun v => if v_addr v =? a then mkVal (v_addr v) (v_tokens v) (v_bonded v) true (v_rate v) else v) (o_vals o))
   | EnvUnjail a => set_vals o (map (fun v => if v_addr v =? a then mkVal (v_addr v) (v_tokens v) (v_bonded v) false (v_rate v) else v) (o_vals o))
   | EnvPoolFund d a => set_pool o (coin_add (o_pool o) d a)
+  | EnvSetTokens a t => set_vals o (map (fun v => if v_addr v =? a then mkVal (v_addr v) t (v_bonded v) (v_jailed v) (v_rate v) else v) (o_vals o))
   end.
